@@ -243,6 +243,28 @@ struct Shared {
 }
 type Sh = std::rc::Rc<std::cell::RefCell<Shared>>;
 
+thread_local! {
+    /// when set, every driver call first parses, binds and completely iterates another (static) test - a driver that uses
+    /// the library itself while it is being called
+    static REENTRANT: std::cell::Cell<bool> = const { std::cell::Cell::new(false) };
+}
+
+fn nested_use_of_the_library() {
+    let src = "X Y W\n\n\n\n\nlet q = 3;\n1 0 (q)\nloop(i,2)\nC X (i+q)\nend loop\n(random(5)) 1 1\nresetRandom;\n";
+    let sigs = vec![
+        Signal::input("X", 1, InputValue::Value(0)),
+        Signal::output("Y", 1),
+        Signal::input("W", 8, InputValue::Z),
+    ];
+    if let Ok(p) = ParsedTestCase::from_str(src) {
+        if let Ok(t) = p.with_signals(sigs) {
+            if let Ok(it) = t.try_iter_static() {
+                for _ in it {}
+            }
+        }
+    }
+}
+
 struct Script {
     /// number of signals of the test; `sigs` holds them followed by their widened copies
     n: usize,
@@ -285,6 +307,17 @@ impl Script {
     fn answer(&mut self, inputs: &[InputEntry<'_>], kind: &str) -> Result<Vec<(usize, OutputValue)>, DrvError> {
         let k = self.k;
         self.k += 1;
+        if REENTRANT.with(|r| r.get()) {
+            REENTRANT.with(|r| r.set(false));
+            let log = verif_hooks::take_rng_log();
+            let _ = catch_unwind(AssertUnwindSafe(nested_use_of_the_library));
+            let _ = verif_hooks::take_rng_log();
+            for ev in log {
+                // (the nested run's generator events are not part of this run's log)
+                let _ = ev;
+            }
+            REENTRANT.with(|r| r.set(true));
+        }
         self.sh.borrow_mut().log.push(format!("CALL {} {}", kind, inputs_s(inputs)));
         let fault = self.fault_at(k);
         // every in-place exchange scheduled for this call (there may be several), in order
@@ -800,6 +833,9 @@ fn decoys(src: &str) -> Vec<String> {
     if let Some(i) = src.rfind(')') {
         out.push(format!("{}{}", &src[..i], &src[i + 1..]));
     }
+    // a text that fails deep inside nested parentheses, and one that fails deep inside nested blocks
+    out.push(format!("A\n{};\n", "(".repeat(40)));
+    out.push(format!("A\n{}1 1\n", "loop(i,2)\nwhile(1)\n".repeat(12)));
     // the most similar texts are parsed last (directly before the real one)
     out.reverse();
     out
@@ -1660,7 +1696,16 @@ fn run_case(c: &Case) -> String {
                                         b
                                     };
                                     let a = run_one(&fresh);
-                                    let verdict = [("the used test", run_one(&used_direct)), ("a clone of the used test", run_one(&used))]
+                                    // a driver that itself parses, binds and iterates another test during every call
+                                    let reentrant = if c.src.to_lowercase().contains("random") {
+                                        a.clone()       // (the nested run would interleave with this run's generator log)
+                                    } else {
+                                        REENTRANT.with(|r| r.set(true));
+                                        let b = run_one(&fresh);
+                                        REENTRANT.with(|r| r.set(false));
+                                        b
+                                    };
+                                    let verdict = [("the used test", run_one(&used_direct)), ("a clone of the used test", run_one(&used)), ("a fresh test with a re-entrant driver", reentrant)]
                                         .iter()
                                         .find_map(|(who, b)| {
                                             if *b == a {
